@@ -84,7 +84,12 @@ func (f *sizeGen) values() bool {
 			v = gn.Val{Kind: "bytes", S: fmt.Sprintf("b%d-", f.serial)}
 		}
 		v = f.legacyForm(v)
-		pad := rapid.SampledFrom([]int{512 * kib, mib, mib + 300*kib, 3 * mib / 2, 2 * mib, 3 * mib}).Draw(t, "bigpad")
+		pads := []int{512 * kib, mib, mib + 300*kib, 3 * mib / 2, 2 * mib, 3 * mib}
+		if f.p.maxBytes >= 20*mib {
+			// thorough tier: containers beyond 16 MiB (a limit a receiver might think generous), single values of 6 MiB
+			pads = append(pads, 4*mib, 6*mib)
+		}
+		pad := rapid.SampledFrom(pads).Draw(t, "bigpad")
 		u := Up{Path: []gn.Elem{{Name: fmt.Sprintf("v%d", i)}}, Val: v, Pad: pad}
 		if kind == "group" {
 			full := append(append([]string{}, k...), gn.IndexOfElems(u.Path, false)...)
